@@ -10,7 +10,7 @@ U2  each iteration of the interactive loops finishes and re-opens the message
 import os
 import re
 from . import common, gates
-from .common import AnalysisBroken, strip, const_value, enum_name
+from .common import AnalysisBroken, strip, const_value, enum_name, walk, calls
 
 EXPLANATION = (
     "U1: in the CFG of compFileFront, from the failing edge (error count non-zero) of every error test that is reachable "
@@ -227,6 +227,60 @@ def u2(rep, f):
                 rep.ok("U2", key)
 
 
+def u5(rep):
+    """Undo of a rejected step in scope binding: scobindRestoreDeclInfo forgets the uses (define / assign / declare marks) that the
+    rejected step left on identifiers that existed before.  A form rejected during scope binding never reaches type inference,
+    so its identifier nodes carry no meaning: the predicate that selects the uses to forget must select those."""
+    from .peval import peval
+    f = common.extract("scobind.c", trees=["declInfoUseIsNew", "scobindRestoreDeclInfo"])
+    fn = f.func("declInfoUseIsNew")
+    rets = [x for x in walk(fn["body"]) if x["k"] == "ReturnStmt"]
+    if len(rets) != 1 or len(fn["params"]) != 1:
+        raise AnalysisBroken("declInfoUseIsNew: expected one parameter and one return")
+    par = fn["params"][0]["n"]
+    env_decl = {}
+    for x in walk(fn["body"]):
+        if x["k"] == "DeclStmt":
+            for d in x.get("decls", []):
+                if d.get("init") is not None:
+                    env_decl[d["n"]] = d["init"]
+
+    def lookup_for(ab, syme):
+        def lookup(n, env):
+            if n.get("mac") == "abSyme" and n["k"] in ("ConditionalOperator",):
+                return syme
+            if n["k"] == "DeclRefExpr" and n["n"] in env_decl:
+                return peval(env_decl[n["n"]], env, lookup)
+            if n["k"] == "CallExpr" and n.get("callee") == "isNewSyme":
+                return None
+            return None
+        return lookup
+    where = "scobind.c:%d (declInfoUseIsNew)" % fn["l"]
+    v = peval(rets[0]["c"][0], {par: 1}, lookup_for(1, 0))
+    if v is None:
+        raise AnalysisBroken("declInfoUseIsNew: value for a use without meaning is not decided by the expression")
+    if v:
+        rep.ok("U5", "undo:use-without-meaning-forgotten")
+    else:
+        rep.violation("U5", "undo:use-without-meaning-forgotten", where,
+                      "a use whose node has no meaning (abSyme == 0: the step was rejected before type inference) is not selected "
+                      "for removal: after `a := 1` a rejected `a: T == 2` leaves its Define mark on `a`, and every later step fails "
+                      "with 'cannot both assign and define'")
+    v0 = peval(rets[0]["c"][0], {par: 0}, lookup_for(0, 0))
+    if v0 == 0:
+        rep.ok("U5", "undo:empty-use-kept")
+    elif v0 is None:
+        raise AnalysisBroken("declInfoUseIsNew: value for an empty slot is not decided")
+    else:
+        rep.violation("U5", "undo:empty-use-kept", where, "an empty use slot is reported as new")
+    user = f.func("scobindRestoreDeclInfo")
+    if calls(user["body"], "declInfoUseIsNew"):
+        rep.ok("U5", "undo:predicate-used-by-restore", nontrivial=False)
+    else:
+        rep.violation("U5", "undo:predicate-used-by-restore", "scobind.c:%d (scobindRestoreDeclInfo)" % user["l"],
+                      "the restore no longer filters the uses with declInfoUseIsNew")
+
+
 def run(tier, only=None):
     rep = common.Report("C13", tier, EXPLANATION)
     f = common.extract("axlcomp.c", all_cfg=True)
@@ -234,6 +288,7 @@ def run(tier, only=None):
     u2(rep, f)
     u3(rep, f)
     u4(rep)
+    u5(rep)
     rep.analysed_count("functions", 3)
     rep.assumptions.append("the CFG search is path-insensitive except for the fintMode == FINT_LOOP assumption in U1")
     return rep
